@@ -16,6 +16,8 @@ from ..sym import ENG, SNum, SBool, EngineSignal, declare_bounds
 from ..symnp import SArr, WriteToProtected
 from ..run import H, explore_case, jsonable
 
+from . import layera_match as LAM
+
 PROP = "C09"
 LIM = 1 << 24
 META = {
@@ -59,10 +61,14 @@ def cases(tier):
         for i in range(0, len(geoms), 10):
             out.append({"name": "sem_%s_g%03d" % (dt, i), "dtype": dt, "geoms": geoms[i:i + 10], "what": "semantic"})
     out.append({"name": "integrity", "what": "integrity"})
+    # composed claim: the whole matcher's outcome depends on the geometry only, for every label value and dtype
+    out += LAM.matcher_cases(tier, PROP)
     return out
 
 
 def run_case(case):
+    if case["what"] == "layerA_matcher":
+        return LAM.run_matcher_case(case, PROP, {"assign": "outcome_is_label_generic"})
     if case["what"] == "integrity":
         return _run_integrity(case)
     from ..twin import get_twin
@@ -293,4 +299,5 @@ def real_semantic(case, mode, expect):
     return {"match": True, "violates": bad is not None, "reason": bad, "observed": obs}
 
 
-REAL = {"kernels": real_kernels, "semantic": real_semantic}
+REAL = {"kernels": real_kernels, "semantic": real_semantic,
+        "layerA_matcher": lambda case, mode, expect: LAM.real_matcher(case, mode, expect, {"assign": "outcome_is_label_generic"})}
